@@ -122,9 +122,10 @@ def case_term(script, result):
         '; '.join(group_term(g) for g in script['groups']),
         '; '.join(op_term(o) for o in script['ops']),
         '; '.join(snap_term(s) for s in result['snaps']),
-        '; '.join(effect_term(e) for e in result['trace']))
+        '; '.join(effect_term(e) for e in result['trace'] if e[0] not in MARKERS))
 
 
+MARKERS = ('pass', 'req')      # harness-only trace entries (pass boundaries, RPC issue points)
 PREAMBLE = 'Open Scope Z_scope.'
 IMPORTS = ['SV.Life.Model', 'SV.Life.Corr']
 
@@ -285,4 +286,4 @@ def random_script(rng, U=2, nprocs=None, maxlen=30, hostile=0.15, shutdown=0.25,
 
 
 def canonical(result):
-    return json.dumps([result['snaps'], result['trace']], sort_keys=True)
+    return json.dumps([result['snaps'], [e for e in result['trace'] if e[0] not in MARKERS]], sort_keys=True)
